@@ -4,6 +4,34 @@ from props import solve_common
 PROP_FILE = "Prop_C02.v"
 
 
+def list_stream(ctx):
+    """the outcome on list scenarios: fixed-size lists by enumeration of every assignment, random-size lists by enumeration for
+    every admissible size (a call fails exactly when no size has a solution); half of the scenarios have a random-size list,
+    a third of those the 'exhaust' shape (unique uses up the element type while the size domain reaches further up)"""
+    import random
+    import core
+    import listgen
+    from props import c04
+    rnd = random.Random("C02-lists-%d" % ctx.seed)
+    n = 70 if ctx.quick() else 1500
+    scs = [listgen.ListGen(random.Random(rnd.random()), randsz=(i % 2 == 1)).scenario() for i in range(n)]
+    obs, results, crashed = c04.evaluate(ctx, scs, "c02l")       # (reports SolveFailure on satisfiable random-size systems itself)
+    ev = 0
+    outcomes = {}
+    for si, o in crashed:
+        core.add_violation(ctx, "library raised outside a randomize call on a list scenario: %s" % str(o)[:300], {"scenario": scs[si], "observed": str(o)[:2000]})
+    for si, oi, code, res, rsz in results:
+        ev += 1
+        outcomes[res["outcome"]] = outcomes.get(res["outcome"], 0) + 1
+        if code is None:
+            ctx.tie_broken.append("Coq evaluation failed for list scenario %d call %d" % (si, oi))
+        elif code & 8:
+            core.add_violation(ctx, "outcome of a call on a list scenario contradicts the satisfiability of the hard constraints (decided by "
+                                    "enumeration), or another exception escaped from the library (outcome %s)" % res["outcome"],
+                               {"scenario": solve_common.brief(scs[si], oi), "observed": {k: res.get(k) for k in ("outcome", "err", "before", "values", "lists")}, "code": code})
+    ctx.coverage["list_stream"] = {"scenarios": n, "evaluations": ev, "outcomes": outcomes}
+
+
 def run(ctx):
     import core
     core.check_prop_file(ctx, PROP_FILE)
@@ -12,8 +40,9 @@ def run(ctx):
         what="outcome of the call contradicts the satisfiability of the hard constraints (decided by enumeration), or another "
              "exception escaped from the library",
         n_quick=170, n_thorough=5000)
+    list_stream(ctx)
     ctx.coverage.update({
-        "evaluations": stats["evaluations"],
+        "evaluations": stats["evaluations"] + ctx.coverage.get("list_stream", {}).get("evaluations", 0),
         "distinct_nontrivial": len({repr(s["classes"][0]["blocks"]) + repr(s["classes"][0]["fields"]) for s in scs}),
         "rule": "the C01 generator restricted to <= 11 random bits per object so that satisfiability is decided independently of "
                 "Boolector by enumerating every assignment of the random fields under the integer semantics; about half of the "
